@@ -2,3 +2,7 @@
 (declare-fun tokenValue (Iface) String)
 ; canonical decimal rendering of a non-negative integer (fmt %d / %v of an unsigned value)
 (declare-fun dec (Int) String)
+; products and quotients of non-constant reals are kept uninterpreted (the proofs only need that the code and
+; the specification compute the same term); constant operands are folded exactly
+(declare-fun real_mul (Real Real) Real)
+(declare-fun real_div (Real Real) Real)
